@@ -946,6 +946,9 @@ impl Case {
                 stats.probe("c17_unencodable_result_judged");
                 if *unchanged && self.mode == Mode::Files {
                     stats.probe("c17_unencodable_but_already_formatted");
+                } else if self.mode == Mode::StdinStdout && self.knobs.stdout_tty {
+                    // a terminal gets the text itself, not its encoding: nothing to encode
+                    stats.probe("c17_stdout_is_terminal_unasserted");
                 } else if !exit_nonzero(&r) {
                     out.push(Finding {
                         oracle: "c17.unencodable_result_exit_zero".into(),
